@@ -1,6 +1,7 @@
 import Lean.Data.Json
 import Verif.Model.Await
 import Verif.Model.Token
+import Verif.Model.ClientApi
 import Verif.Gen.Errors
 open Lean
 -- DRIVER: await
@@ -121,7 +122,39 @@ def handleToken (j : Json) : Except String Json := do
       ("invoked", toJson o.invoked), ("raised", Json.bool o.raised),
       ("answer", match o.answer with | some b => Json.bool b | none => Json.null)])).toArray)]
 
+/-- `{"m":"await","client":true,"initialized":b,"supported":[v…],"stream":[[abs tick, event]…],
+"calls":[{"init":cfg,"req":cfg,"gap":n}…]}`: consecutive calls of one `MCPClient` on one connection.
+An `initialize` result is accepted when it has the shape of an `InitializeResult` and its version
+is one of `supported` (the library's list, read from the running code by the harness). -/
+def handleClient (j : Json) : Except String Json := do
+  let evs ← j.getObjValAs? (Array Json) "stream"
+  let stream ← evs.toList.mapM (fun e => do
+    let a ← (← e.getArrVal? 0).getNat?
+    let m ← getIn (← e.getArrVal? 1)
+    pure (a, m))
+  let sup ← j.getObjValAs? (Array String) "supported"
+  let isObj (p : Json) (k : String) : Bool := match p.getObjVal? k with
+    | .ok (.obj _) => true
+    | _ => false
+  let okInit : Json → Bool := fun p => match p.getObjValAs? String "protocolVersion" with
+    | .ok v => sup.contains v && isObj p "serverInfo" && isObj p "capabilities"
+    | .error _ => false
+  let cs ← j.getObjValAs? (Array Json) "calls"
+  let calls ← cs.toList.mapM (fun c => do
+    let (ci, _) ← getCfgEv (← c.getObjVal? "init")
+    let (cr, _) ← getCfgEv (← c.getObjVal? "req")
+    pure ({ init := ci, req := cr, gap := (c.getObjValAs? Nat "gap").toOption.getD 0 } : Verif.Model.ClientApi.Call Json))
+  let initd := (j.getObjValAs? Bool "initialized").toOption.getD false
+  let outs := Verif.Model.ClientApi.clientSeq Verif.Gen.Errors.isRetryableError okInit initd 0 0 stream calls
+  return Json.arr (outs.map (fun o => Json.mkObj [
+    ("start", toJson o.start), ("used", toJson o.used),
+    ("init", match o.init with | some oi => outJson oi | none => Json.null),
+    ("req", match o.req with
+      | some (s, u, r) => ((outJson r).setObjVal! "start" (toJson s)).setObjVal! "used" (toJson u)
+      | none => Json.null)])).toArray
+
 def handle (j : Json) : Except String Json := do
+  if (j.getObjVal? "client").isOk then return ← handleClient j
   if (j.getObjVal? "tokenOps").isOk then return ← handleToken j
   if (j.getObjVal? "seq").isOk then return ← handleSeq j
   let P ← j.getObjValAs? Nat "P"
